@@ -40,7 +40,7 @@ RULE = (
 EXTRA_FLAGS = ["-Wshadow", "-Werror=shadow"]
 
 
-def case_strategy(backend):
+def case_strategy(backend, focus=()):
     sch = standard_schema(backend)
     fmd, funcs, _env = simple_cpp_functions()
 
@@ -49,7 +49,7 @@ def case_strategy(backend):
         blocks = draw(valid_code_blocks(backend))
         scripts = draw(job_scripts())
         use_funcs = draw(st.booleans())
-        feat = Features(user_funcs=funcs if use_funcs else ())
+        feat = Features(user_funcs=funcs if use_funcs else (), focus=focus)
         md = list(blocks) + list(scripts) + (fmd if use_funcs else [])
         q = draw(queries(sch, feat, extra_md=md))
         uses = q.uses or [(sch.colls[0].accessor, sch.colls[0].banks[0])]
@@ -231,6 +231,9 @@ def worker(payload):
         stats.case(norm, nb >= 2 and ncv >= 1, labels, {"backend": backend, "query": q.text[-400:], "blocks_with_declarations": nb, "class_variables": ncv})
 
     hyp_search(body, case_strategy(backend), max_examples=n, seed=seed, stats=stats, deadline=deadline, key_fn=case_key, shrink_budget=60)
+    # a focused batch of its own (own seed): two-argument methods and three-loop flattenings whenever the query at hand allows them
+    hyp_search(body, case_strategy(backend, focus=("mix", "flat3")), max_examples=max(1, n // 8), seed=derive_seed(seed, "focus"), stats=stats, deadline=deadline,
+               key_fn=case_key, shrink_budget=60)
 
     def young_body(case):
         text, evs = case
